@@ -170,6 +170,16 @@ def oracle_pair_adapters(ent):
             c1, c2 = s1 != inp[i][0][1], s2 != inp[i][1][1]
             if c1 != c2:
                 return "pair %r: one mate trimmed (%s), the other not, under --pair-adapters" % (n1, "R1" if c1 else "R2")
+            if not c1 and not c2 and b.times == 1 and not b.revcomp:
+                # left alone although some rank -- searched with its own parameters -- matches both mates and would remove something
+                o1, o2 = ent.get("_objs") or P.adapter_objects2(pcfg)
+                ent["_objs"] = (o1, o2)
+                for j, (x1, x2) in enumerate(zip(o1, o2)):
+                    m1, m2 = x1.match_to(inp[i][0][1]), x2.match_to(inp[i][1][1])
+                    if m1 is not None and m2 is not None and hasattr(m1, "remainder_interval") and hasattr(m2, "remainder_interval"):
+                        (l1, h1), (l2, h2) = m1.remainder_interval(), m2.remainder_interval()
+                        if (h1 - l1) < len(inp[i][0][1]) or (h2 - l2) < len(inp[i][1][1]):
+                            return "pair %r: left unchanged although the adapters of rank %d match both mates under --pair-adapters" % (n1, j)
             if c1 and b.times == 1 and not b.revcomp:
                 # some rank must explain both trimmed mates (the single adapters' own answers on the input mates)
                 o1, o2 = ent.get("_objs") or P.adapter_objects2(pcfg)
@@ -299,6 +309,74 @@ def oracle_sides(ent, d):
     return None
 
 
+def reduced_pcfg(pcfg, upto):
+    """the paired option set cut down to the read-modifying steps up to [upto] ('cut', 'qual', 'adapters', 'polya'), with every
+    filter, redirect, renaming and later step removed: what reaches / leaves one step can then be read off the outputs"""
+    import copy
+
+    c = copy.deepcopy(pcfg)
+    b = c.base
+    c.min_len = c.max_len = None
+    c.pair_filter = None
+    c.combinatorial = False
+    c.interleaved_in = c.interleaved_out = c.redirect_two = False
+    b.max_n = b.max_ee = b.max_aer = None
+    b.casava = b.discard_trimmed = b.discard_untrimmed = b.untrimmed_output = False
+    b.too_short_output = b.too_long_output = False
+    b.demux = False
+    b.info_file, b.side_files = False, ()
+    b.rename, b.length_tag, b.strip_suffix, b.prefix, b.suffix, b.zero_cap = None, None, (), "", "", False
+    b.length, c.length2, b.trim_n = None, None, False
+    order = ["cut", "qual", "adapters", "polya"]
+    k = order.index(upto)
+    if k < 1:
+        b.qcut, c.qcut2, b.nextseq = None, None, None
+    if k < 2:
+        b.adapters, c.adapters2, c.pair_adapters, b.revcomp = (), (), False, False
+    if k < 3:
+        b.poly_a = False
+    return c
+
+
+def oracle_step_counts(ent, d):
+    """the base-pair figures of the report, per mate: 'quality-trimmed' is what the quality-trimming steps removed from that mate
+    and 'poly-A-trimmed' what the poly-A step removed -- measured as the difference between the run up to the step before and the
+    run up to that step, for R1 and R2 separately"""
+    pcfg, pairs, res = ent["cfg"], ent["pairs"], ent["impl"]
+    b = pcfg.base
+    if b.revcomp or res.get("exit") != 0 or res.get("report") is None:
+        return None
+    bp = res["report"]["basepair_counts"]
+
+    def lens(r):
+        out = [0, 0]
+        for pr in r["files"].get(0, []):
+            if isinstance(pr, tuple) and len(pr) == 2 and isinstance(pr[0], tuple):
+                out[0] += len(pr[0][1])
+                out[1] += len(pr[1][1])
+        return out
+
+    def run(upto):
+        r = P.run_impl(reduced_pcfg(pcfg, upto), pairs, d)
+        return lens(r) if r["exit"] == 0 and len(r["files"].get(0, [])) == len(pairs) else None
+
+    if b.qcut not in (None,) or pcfg.qcut2 is not None or b.nextseq is not None:
+        before, after = run("cut"), run("qual")
+        if before is not None and after is not None:
+            for i in (0, 1):
+                got = bp.get("quality_trimmed_read%d" % (i + 1)) or 0
+                if got != before[i] - after[i]:
+                    return "report: %d bp quality-trimmed from R%d, the quality-trimming steps removed %d" % (got, i + 1, before[i] - after[i])
+    if b.poly_a:
+        before, after = run("adapters"), run("polya")
+        if before is not None and after is not None:
+            for i in (0, 1):
+                got = bp.get("poly_a_trimmed_read%d" % (i + 1)) or 0
+                if got != before[i] - after[i]:
+                    return "report: %d bp poly-A-trimmed from R%d, the poly-A step removed %d" % (got, i + 1, before[i] - after[i])
+    return None
+
+
 def oracle_late_shorten(ent, d):
     """C10 for pairs, -l / -L: shortening comes after adapter trimming (and poly-A trimming), whatever kind of step the adapters are
     (two single-end steps, --pair-adapters, paired --revcomp): the run without -l/-L, shortened afterwards, gives the same reads"""
@@ -413,7 +491,7 @@ def oracle_pdemux(ent, d):
 
 PAIRED_ORACLES = {
     "C03": lambda ent, d: oracle_slices(ent, d),
-    "C04": lambda ent, d: oracle_sync(ent),
+    "C04": lambda ent, d: oracle_sync(ent) or oracle_step_counts(ent, d),
     "C05": lambda ent, d: oracle_sync(ent) or oracle_pair_adapters(ent) or oracle_decision(ent, d),
     "C09": lambda ent, d: oracle_sides(ent, d),
     "C10": lambda ent, d: oracle_sides(ent, d) or oracle_late_shorten(ent, d),
